@@ -249,7 +249,8 @@ Fixpoint flat_sensors (o : mobj) : list Z :=
 
 (* what is handed to getBH_level2 as `sources` / `observers` *)
 Inductive arg := ASelf | AInput0 | AInputs.     (* the collection itself / inputs[0] bare / the tuple `inputs` *)
-Inductive vres := VRoles (sources observers : arg) | VBad.
+Inductive vres := VRoles (sources observers : arg) | VBad
+                  | VUnbound.   (* `return sources, sensors` with the names never assigned (UnboundLocalError) *)
 
 Definition is_nil {A} (l : list A) : bool := match l with [] => true | _ => false end.
 
@@ -262,6 +263,84 @@ Definition validate_getBH_inputs (self : mobj) (n_inputs : nat) : vres :=
   if has_sens && has_src then (if Nat.eqb n_inputs 0 then VRoles ASelf ASelf else VBad)
   else if negb has_src then VRoles AInputs ASelf
   else if Nat.eqb n_inputs 1 then VRoles ASelf AInput0 else VRoles ASelf AInputs.
+
+(* ---- the method wrappers: BaseSource.getX, Sensor.getX, BaseCollection.getX and the top-level getX are one-line
+        calls of getBH_level2; the rows are READ from the source (Gen/GenIfaces.v) ---- *)
+Inductive warg :=
+| WParam (name : string)       (* the method's own parameter of this name is passed on *)
+| WBool (b : bool) | WStr (s : string) | WNone.     (* a literal *)
+
+Definition warg_eqb (a b : warg) : bool :=
+  match a, b with
+  | WParam x, WParam y => String.eqb x y
+  | WBool x, WBool y => Bool.eqb x y
+  | WStr x, WStr y => String.eqb x y
+  | WNone, WNone => true
+  | _, _ => false
+  end.
+
+Record wrapper_row := mkWrapper {
+  w_owner : string;                    (* class name, "" for the module-level functions *)
+  w_method : string;
+  w_star : option string;              (* name of the *args parameter *)
+  w_params : list (string * warg);     (* the other parameters (without self) with their defaults *)
+  w_starkw : bool;                     (* has **kwargs and passes it on *)
+  w_pre : string;                      (* "" | "format_star_input" | "_validate_getBH_inputs": what is applied to *args *)
+  w_pos : list string;                 (* the two positional arguments of the getBH_level2 call *)
+  w_field : string;
+  w_kw : list (string * warg)          (* the other keyword arguments of the call *)
+}.
+
+(* the flags of getBH_level2 with the defaults of the top-level functions *)
+Definition level2_flags : list (string * warg) :=
+  [("sumup", WBool false); ("squeeze", WBool true); ("pixel_agg", WNone); ("output", WStr "ndarray");
+   ("in_out", WStr "auto")]%string.
+
+Definition flag_ok (r : wrapper_row) (fl : string * warg) : bool :=
+  let '(k, dflt) := fl in
+  match assoc k (w_kw r) with
+  | Some (WParam p) => String.eqb p k &&
+                       match assoc k (w_params r) with Some d => warg_eqb d dflt | None => false end
+  | Some c => warg_eqb c dflt && negb (str_mem k (map fst (w_params r)))
+  | None => false
+  end.
+
+Definition list_str_eqb (a b : list string) : bool :=
+  Nat.eqb (List.length a) (List.length b) && forallb (fun p => String.eqb (fst p) (snd p)) (combine a b).
+
+Definition roles_ok (r : wrapper_row) : bool :=
+  if String.eqb (w_owner r) "BaseSource" then
+    String.eqb (w_pre r) "format_star_input" && list_str_eqb (w_pos r) ["self"; "observers"]%string &&
+    match w_star r with Some s => String.eqb s "observers" | None => false end && negb (w_starkw r)
+  else if String.eqb (w_owner r) "Sensor" then
+    String.eqb (w_pre r) "format_star_input" && list_str_eqb (w_pos r) ["sources"; "self"]%string &&
+    match w_star r with Some s => String.eqb s "sources" | None => false end && negb (w_starkw r)
+  else if String.eqb (w_owner r) "BaseCollection" then
+    String.eqb (w_pre r) "_validate_getBH_inputs" && list_str_eqb (w_pos r) ["sources"; "sensors"]%string &&
+    match w_star r with Some s => String.eqb s "inputs" | None => false end && negb (w_starkw r)
+  else if String.eqb (w_owner r) "" then
+    String.eqb (w_pre r) "" && list_str_eqb (w_pos r) ["sources"; "observers"]%string &&
+    match w_star r with Some _ => false | None => true end && w_starkw r &&
+    (* sources / observers are the first two parameters *)
+    list_str_eqb (firstn 2 (map fst (w_params r))) ["sources"; "observers"]%string
+  else false.
+
+Definition wrapper_ok (r : wrapper_row) : bool :=
+  String.eqb (w_method r) ("get" ++ w_field r) && str_mem (w_field r) ["B"; "H"; "J"; "M"]%string &&
+  forallb (flag_ok r) level2_flags && Nat.eqb (List.length (w_kw r)) 5 && roles_ok r.
+
+Definition expected_wrappers : list (string * string) :=
+  flat_map (fun o => map (fun m => (o, m)) ["getB"; "getH"; "getJ"; "getM"]%string)
+           [""; "BaseSource"; "Sensor"; "BaseCollection"]%string.
+
+Definition wrappers_complete (ws : list wrapper_row) : bool :=
+  forallb (fun e => existsb (fun r => String.eqb (w_owner r) (fst e) && String.eqb (w_method r) (snd e)) ws)
+          expected_wrappers && Nat.eqb (List.length ws) (List.length expected_wrappers).
+
+(* the dataframe assembly as written in the source: the iterables of product(...), the column names *)
+Definition df_product_expected : list string :=
+  ["src_ids"; "range(max_path_len)"; "sens_ids"; "range(num_of_pixels)"]%string.
+Definition df_columns_expected : list string := ["source"; "path"; "sensor"; "pixel"]%string.
 
 (* ------------------------------------------------------------------------------------------------------------------
    3. dataframe assembly
@@ -334,6 +413,7 @@ Definition failing_dcases (registered : list (string * list (string * Z))) (base
 Definition vres_eqb (a b : vres) : bool :=
   match a, b with
   | VBad, VBad => true
+  | VUnbound, VUnbound => true
   | VRoles s o, VRoles s' o' =>
     (match s, s' with ASelf, ASelf | AInput0, AInput0 | AInputs, AInputs => true | _, _ => false end) &&
     (match o, o' with ASelf, ASelf | AInput0, AInput0 | AInputs, AInputs => true | _, _ => false end)
